@@ -818,18 +818,21 @@ impl Harness for H {
         let plan = |depth: usize, split: u32| Plan { tree_depth: depth, finish_prefixes: false, frontier: None, split };
 
         // --- notification only
+        // (quick: the select variant explores the larger alphabets one step less deep than the epoll variant)
         for variant in [Variant::Local, Variant::LocalSelect] {
-            v.push((Cfg { nodrain: true, notify_in_cb: true, ..cfg(variant, &[1]) }, plan(if q { 6 } else { 8 }, if q { 1 } else { 4 })));
-            v.push((Cfg { nodrain: true, ..cfg(variant, &[2]) }, plan(if q { 6 } else { 7 }, if q { 4 } else { 8 })));
-            v.push((Cfg { notify_in_cb: true, ..cfg(variant, &[1, 1]) }, plan(if q { 5 } else { 6 }, if q { 2 } else { 12 })));
+            let less = (q && variant == Variant::LocalSelect) as usize;
+            v.push((Cfg { nodrain: true, notify_in_cb: true, ..cfg(variant, &[1]) }, plan(if q { 6 } else { 8 }, if q { 2 } else { 6 })));
+            v.push((Cfg { nodrain: true, ..cfg(variant, &[2]) }, plan(if q { 6 - less } else { 7 }, if q { 8 } else { 12 })));
+            v.push((Cfg { notify_in_cb: true, ..cfg(variant, &[1, 1]) }, plan(if q { 5 - less } else { 6 }, if q { 3 } else { 12 })));
         }
         // --- deadlines and intervals
         for variant in [Variant::Local, Variant::LocalSelect] {
-            v.push((Cfg { notification: false, deadline: true, intervals: 1, nodrain: true, ..cfg(variant, &[1]) }, plan(if q { 6 } else { 8 }, if q { 1 } else { 4 })));
-            v.push((Cfg { notification: false, deadline: true, intervals: 1, ..cfg(variant, &[2]) }, plan(if q { 5 } else { 6 }, if q { 2 } else { 10 })));
+            let less = (q && variant == Variant::LocalSelect) as usize;
+            v.push((Cfg { notification: false, deadline: true, intervals: 1, nodrain: true, ..cfg(variant, &[1]) }, plan(if q { 6 } else { 8 }, if q { 4 } else { 8 })));
+            v.push((Cfg { notification: false, deadline: true, intervals: 1, ..cfg(variant, &[2]) }, plan(if q { 5 } else { 6 }, if q { 3 } else { 10 })));
             // mixed kinds, re-attachment with the other kind, attach twice with the other kind
-            v.push((Cfg { deadline: true, intervals: 1, twice_other_kind: true, ..cfg(variant, &[1]) }, plan(if q { 6 } else { 7 }, if q { 3 } else { 8 })));
-            v.push((Cfg { deadline: true, twice_other_kind: true, ..cfg(variant, &[1, 1]) }, plan(if q { 5 } else { 6 }, if q { 4 } else { 10 })));
+            v.push((Cfg { deadline: true, intervals: 1, twice_other_kind: true, ..cfg(variant, &[1]) }, plan(if q { 6 - less } else { 7 }, if q { 8 } else { 12 })));
+            v.push((Cfg { deadline: true, twice_other_kind: true, ..cfg(variant, &[1, 1]) }, plan(if q { 4 } else { 6 }, if q { 2 } else { 10 })));
         }
         // --- listener re-creation between detach and re-attach (file descriptor number reuse)
         for variant in [Variant::Local, Variant::LocalSelect] {
@@ -837,15 +840,15 @@ impl Harness for H {
         }
         v.push((Cfg { recreate: true, ..cfg(Variant::Ipc, &[1, 1]) }, plan(if q { 3 } else { 4 }, 7)));
         // --- three / four listeners
-        v.push((cfg(Variant::Local, &[2, 1]), plan(if q { 5 } else { 6 }, if q { 4 } else { 9 })));
+        v.push((cfg(Variant::Local, &[2, 1]), plan(if q { 5 } else { 6 }, if q { 6 } else { 12 })));
         if !q {
             v.push((cfg(Variant::Local, &[2, 2]), plan(6, 12)));
             v.push((Cfg { deadline: true, ..cfg(Variant::Local, &[3, 1]) }, plan(5, 12)));
             v.push((cfg(Variant::LocalSelect, &[2, 2]), plan(6, 12)));
         }
         // --- ipc (files, shared memory, unix datagram sockets): expensive, shallower
-        v.push((Cfg { nodrain: true, notify_in_cb: true, ..cfg(Variant::Ipc, &[1]) }, plan(if q { 4 } else { 6 }, if q { 4 } else { 6 })));
-        v.push((Cfg { deadline: true, intervals: 1, ..cfg(Variant::Ipc, &[1, 1]) }, plan(if q { 3 } else { 5 }, if q { 8 } else { 9 })));
+        v.push((Cfg { nodrain: true, notify_in_cb: true, ..cfg(Variant::Ipc, &[1]) }, plan(if q { 4 } else { 6 }, 7)));
+        v.push((Cfg { deadline: true, intervals: 1, ..cfg(Variant::Ipc, &[1, 1]) }, plan(if q { 3 } else { 5 }, 10)));
         if !q {
             v.push((cfg(Variant::Ipc, &[2, 2]), plan(4, 12)));
         }
